@@ -10,13 +10,17 @@ PLAN = dict(
          "retries (signature r=0, r+k=n, s=0 by choice of the digest; all-zero KDF output by stored nonces). The scalar is recovered from the "
          "output with the private key (k=s(1+d)+rd; d of generated keys) or the public part is recomputed from the candidate block with "
          "independent arithmetic, and must be the first in-range block under the documented rule; bytes consumed must be exactly what the rule "
-         "explains. clause 2 (c12.faults, c12.eof): one case = (entry point, number of rejected blocks first, Read index k, fault kind) resp. "
+         "explains. c12.reentrant: every ordered pair (outer operation A, inner operation B) of the catalogue x Read index k of A x placement: "
+         "B runs to completion (own script, same or another goroutine) inside A's k-th Read, before the bytes are served or after they were "
+         "copied into the buffer; both outputs must then satisfy the fidelity oracle on their own stream (no bits of a sampled block shared "
+         "between overlapping operations). clause 2 (c12.faults, c12.eof): one case = (entry point, number of rejected blocks first, Read index k, fault kind) resp. "
          "(entry point, rejected blocks, stream length L). distinct = distinct class keys (operation/variant/rejected-count/accepted-value class; "
          "operation/skipped-value class; operation/variant/rejected/kind/k; .../eof@L)",
     jobs=both("c12.fidelity", ["avx2", "purego"], shards=(4, 12), floor=1000)
     + both("c12.retry", ["avx2", "purego"], shards=(1, 2), floor=40)
     + both("c12.faults", ["avx2", "purego"], shards=(2, 8), floor=1000)
-    + both("c12.eof", ["avx2", "purego"], shards=(1, 4), floor=500),
+    + both("c12.eof", ["avx2", "purego"], shards=(1, 4), floor=500)
+    + both("c12.reentrant", ["avx2", "purego"], shards=(2, 8), floor=500),
     exhaustive_note="fault enumeration is exhaustive over (entry point x rejected-blocks-first j in 0..2 (thorough 0..4) x Read index k in 0..R+1 x "
                     "{EOF/0 bytes, EOF/partial, ErrUnexpectedEOF/0 bytes, custom error, short read then error}) where R is the number of reads of the "
                     "fault-free run on the same stream (events.fault_free_runs; k >= R must go unnoticed), and over every stream length L in "
@@ -37,11 +41,14 @@ CLAIM = dict(
          "structured and for uniform scripted streams the scalar recovered from the output (or the candidate block re-derived into the public "
          "output) equals the first 32-byte block that the documented rule accepts (0<k<n, keys 0<d<n-1, byte 1 XOR 0x42 for ecdh and SM9 master "
          "keys; next block after a rejection or an algorithm-level retry), and the Read log shows no byte consumed beyond those blocks (plus the "
-         "IV of the SM9 block modes). Every Read position of every operation is failed in five ways, and every premature end of stream by byte "
+         "IV of the SM9 block modes). Every ordered pair of operations is interleaved deterministically at the API boundary (the second "
+         "operation runs inside a Read of the first, before and after the bytes are delivered) and both must still use exactly their own block. "
+         "Every Read position of every operation is failed in five ways, and every premature end of stream by byte "
          "offset: the operation must return an error, no output, and must not panic. Fault enumeration for the second clause, exploration of "
          "streams for the first.",
     design_ref="DESIGN.md 6 (C12)",
     note="trusted: harness/ref/ec, ref/sm3, math/big, crypto/elliptic (NIST P-256), encoding/asn1; bn256 arithmetic through the verif hook "
          "(its correctness is C09's claim). SM9 signature l=0 retry cannot be forced (needs an H2 preimage) and is only modelled.",
-    technique="scripted random source with Read-event log + scalar-recovery / recomputation oracles + exhaustive fault placement",
+    technique="scripted random source with Read-event log + scalar-recovery / recomputation oracles + exhaustive fault placement + "
+              "deterministic re-entrant interleaving of operation pairs from inside the Reader",
 )
